@@ -97,6 +97,10 @@ fn random_program(r: &mut Rng, out: &mut Out) -> String {
         out.stat("gen_feeding");
         return gen::feeding(r);
     }
+    if r.chance(1, 12) {
+        out.stat("gen_io_nest");
+        return gen::io_nest(r);
+    }
     match r.below(10) {
         0..=3 => {
             out.stat("gen_token");
@@ -1220,8 +1224,13 @@ fn faults_case<C: CellType>(w: u32, code: &str, input: &[u8], out: &mut Out) {
 /// of the first failing input request, early end of input, absent source, absent sink — all back ends,
 /// all levels, compared with the canonical run in the same environment.
 pub fn faults(r: &mut Rng, count: usize, out: &mut Out) {
-    for _ in 0..count {
-        let code = random_program(r, out);
+    for i in 0..count {
+        let code = if i % 4 == 0 {
+            out.stat("gen_io_nest");
+            gen::io_nest(r)
+        } else {
+            random_program(r, out)
+        };
         let input = gen::input_bytes(r);
         let w = *r.pick(&WIDTHS);
         with_width!(w, faults_case, w, &code, &input, out);
